@@ -291,4 +291,427 @@ theorem uniform_table_unique (b : Nat) (T1 T2 : BinTable)
     exact uniformChrom_unique b c _ _ (hv1 _ m1) (hv2 _ m2) (hu1 _ m1) (hu2 _ m2) hl.symm
       (compat_group_chrom T1 c) (compat_group_chrom T2 c)
 
+/-! ## first appearances; ids of the reported chromosome sizes -/
+
+/-- elements in order of first appearance (`chromOrder` for any key type) -/
+def firsts {α : Type} [DecidableEq α] : List α → List α
+  | [] => []
+  | a :: l => a :: (firsts l).filter (· ≠ a)
+
+theorem mem_firsts {α : Type} [DecidableEq α] : ∀ (l : List α) (x : α), x ∈ firsts l ↔ x ∈ l := by
+  intro l
+  induction l with
+  | nil => intro x; simp [firsts]
+  | cons a l ih =>
+    intro x
+    simp only [firsts, List.mem_cons, List.mem_filter, ih, decide_eq_true_eq]
+    constructor
+    · rintro (h | ⟨h, _⟩)
+      · exact Or.inl h
+      · exact Or.inr h
+    · rintro (h | h)
+      · exact Or.inl h
+      · by_cases hx : x = a
+        · exact Or.inl hx
+        · exact Or.inr ⟨h, hx⟩
+
+theorem chromOrder_eq_firsts : ∀ T : BinTable, chromOrder T = firsts (T.map Bin.chrom) := by
+  intro T
+  induction T with
+  | nil => rfl
+  | cons b r ih => simp [chromOrder, firsts, ih]
+
+/-- relabelling by a function that is injective on the list commutes with `firsts` -/
+theorem firsts_map {α β : Type} [DecidableEq α] [DecidableEq β] (f : α → β) : ∀ (l : List α),
+    (∀ a ∈ l, ∀ b ∈ l, f a = f b → a = b) → firsts (l.map f) = (firsts l).map f := by
+  intro l
+  induction l with
+  | nil => intro _; rfl
+  | cons a l ih =>
+    intro hinj
+    simp only [List.map_cons, firsts]
+    rw [ih (fun x hx y hy => hinj x (List.mem_cons_of_mem _ hx) y (List.mem_cons_of_mem _ hy))]
+    congr 1
+    rw [List.filter_map]
+    congr 1
+    apply List.filter_congr
+    intro x hx
+    have hxl : x ∈ l := (mem_firsts l x).mp hx
+    simp only [Function.comp, decide_eq_decide]
+    constructor
+    · intro h hxa; exact h (by rw [hxa])
+    · intro h hfx; exact h (hinj x (List.mem_cons_of_mem _ hxl) a (by simp) hfx)
+
+/-- on a chromosome-sorted table `get_chromsizes` lists the chromosomes in the table's order -/
+theorem chromsizes_ids_sorted : ∀ T : BinTable, chromSortedB T = true →
+    (getChromsizes T).map Prod.fst = chromOrder T := by
+  intro T
+  induction T with
+  | nil => intro _; rfl
+  | cons a rest ih =>
+    intro hs
+    have ih' := ih (compat_sorted_tail hs)
+    unfold getChromsizes
+    split
+    · rename_i hany
+      rw [ih']
+      cases rest with
+      | nil => simp at hany
+      | cons b r' =>
+        have hab : a.chrom = b.chrom := by
+          simp only [List.any_eq_true, beq_iff_eq] at hany
+          obtain ⟨y, hy, hyc⟩ := hany
+          have h1 : a.chrom ≤ b.chrom := compat_sorted_head_le hs b (by simp)
+          have h2 : b.chrom ≤ y.chrom := by
+            rcases List.mem_cons.mp hy with rfl | hy'
+            · exact Nat.le_refl _
+            · exact compat_sorted_head_le (compat_sorted_tail hs) y hy'
+          omega
+        simp [chromOrder, hab, List.filter_filter]
+    · rename_i hany
+      simp only [List.map_cons, chromOrder, ih']
+      congr 1
+      symm
+      rw [List.filter_eq_self]
+      intro c hc
+      rw [compat_mem_chromOrder] at hc
+      obtain ⟨y, hy, hyc⟩ := hc
+      simp only [decide_eq_true_eq]
+      intro hca
+      apply hany
+      simp only [List.any_eq_true, beq_iff_eq]
+      exact ⟨y, hy, hyc.trans hca⟩
+
+theorem range_map_getElem? (names : List Name) :
+    (List.range names.length).map (fun c => names[c]?) = names.map some := by
+  apply List.ext_getElem
+  · simp
+  · intro k h1 h2
+    simp at h1 h2 ⊢
+
+/-- a (name, length) list over ids `0 … n-1` determines the names and the (id, length) list -/
+theorem keyed_map_inj {n1 n2 : List Name} {A B : List (Nat × Nat)}
+    (hA : A.map Prod.fst = List.range n1.length) (hB : B.map Prod.fst = List.range n2.length)
+    (h : A.map (fun p => (n1[p.1]?, p.2)) = B.map (fun p => (n2[p.1]?, p.2))) : n1 = n2 ∧ A = B := by
+  have hlenA : A.length = n1.length := by simpa using congrArg List.length hA
+  have hlenB : B.length = n2.length := by simpa using congrArg List.length hB
+  have hlen : A.length = B.length := by simpa using congrArg List.length h
+  have hpt : ∀ k (hkA : k < A.length) (hkB : k < B.length), n1[k]? = n2[k]? ∧ A[k] = B[k] := by
+    intro k hkA hkB
+    have e1 : A[k].1 = k := by
+      have := List.getElem_of_eq hA (by simpa using hkA : k < (A.map Prod.fst).length)
+      simpa using this
+    have e2 : B[k].1 = k := by
+      have := List.getElem_of_eq hB (by simpa using hkB : k < (B.map Prod.fst).length)
+      simpa using this
+    have e3 := List.getElem_of_eq h (by simpa using hkA : k < (A.map fun p => (n1[p.1]?, p.2)).length)
+    simp only [List.getElem_map, Prod.mk.injEq] at e3
+    rw [e1, e2] at e3
+    refine ⟨e3.1, ?_⟩
+    apply Prod.ext
+    · rw [e1, e2]
+    · exact e3.2
+  constructor
+  · apply List.ext_getElem?
+    intro k
+    by_cases hk : k < A.length
+    · exact (hpt k hk (by omega)).1
+    · rw [List.getElem?_eq_none (by omega), List.getElem?_eq_none (by omega)]
+  · apply List.ext_getElem hlen
+    intro k h1 h2
+    exact (hpt k h1 h2).2
+
+/-! ## what a well-formed input gives -/
+
+theorem wf_sorted {x : Input} (h : WF x) : chromSortedB x.bins = true := by
+  have := h.1
+  simp only [validSegmentationB, Bool.and_eq_true] at this
+  exact this.1
+
+theorem wf_valid {x : Input} (h : WF x) : ∀ g ∈ groups x.bins, ValidChrom g := by
+  have := h.1
+  simp only [validSegmentationB, Bool.and_eq_true, List.all_eq_true, decide_eq_true_eq] at this
+  exact this.2
+
+theorem wf_ids {x : Input} (h : WF x) : chromOrder x.bins = List.range x.names.length := by
+  have := h.2.2.1
+  simpa [idsMatchNames] using this
+
+theorem wf_chrom_lt {x : Input} (h : WF x) : ∀ b ∈ x.bins, b.chrom < x.names.length := by
+  intro b hb
+  have : b.chrom ∈ chromOrder x.bins := (compat_mem_chromOrder _ _).mpr ⟨b, hb, rfl⟩
+  rw [wf_ids h] at this
+  simpa using this
+
+/-- the names column of the frame, in order of first appearance, is the list of names -/
+theorem rows_firsts {x : Input} (h : WF x) : firsts (x.rows.map (fun r => r.1)) = x.names.map some := by
+  have hm : x.rows.map (fun r => r.1) = (x.bins.map Bin.chrom).map (fun c => x.names[c]?) := by
+    simp [Input.rows, rowsOf, List.map_map, Function.comp_def]
+  rw [hm, firsts_map, ← chromOrder_eq_firsts, wf_ids h, range_map_getElem?]
+  intro a ha b _ hab
+  obtain ⟨ba, hba, rfl⟩ := List.mem_map.mp ha
+  exact (List.getElem?_inj (wf_chrom_lt h ba hba) h.2.1).mp hab
+
+/-- table path: equal frames ⇒ equal names and equal tables -/
+theorem rows_inj {x y : Input} (hx : WF x) (hy : WF y) (h : x.rows = y.rows) :
+    x.names = y.names ∧ x.bins = y.bins := by
+  have hn : x.names = y.names := by
+    have := rows_firsts hx
+    rw [h, rows_firsts hy] at this
+    exact (List.map_inj_right (by intro a b hab; exact Option.some.inj hab)).mp this.symm
+  refine ⟨hn, ?_⟩
+  have hlen : x.bins.length = y.bins.length := by
+    have := congrArg List.length h
+    simpa [Input.rows, rowsOf] using this
+  apply List.ext_getElem hlen
+  intro k h1 h2
+  have hk : x.rows[k]? = y.rows[k]? := by rw [h]
+  simp only [Input.rows, rowsOf, List.getElem?_map, List.getElem?_eq_getElem h1,
+    List.getElem?_eq_getElem h2, Option.map_some, Option.some.injEq, Prod.mk.injEq] at hk
+  obtain ⟨hc, hs, he⟩ := hk
+  have hc' : x.names[x.bins[k].chrom]? = x.names[y.bins[k].chrom]? := by rw [hc, hn]
+  have hcc : x.bins[k].chrom = y.bins[k].chrom :=
+    (List.getElem?_inj (wf_chrom_lt hx _ (List.getElem_mem h1)) hx.2.1).mp hc'
+  revert hcc hs he
+  cases x.bins[k]; cases y.bins[k]
+  simp only [Bin.mk.injEq]
+  intros
+  refine ⟨?_, ?_, ?_⟩ <;> assumption
+
+/-- **fastpath_sound**: the fixed-size shortcut is sound.  Two well-formed inputs that report the same
+bin size and the same chromosome sizes have the same chromosome names and the same bin table —
+although the code never compared the tables.  Rests on `C20.getBinsize_truthful`. -/
+theorem fastpath_sound {x y : Input} (hx : WF x) (hy : WF y) {b : Nat}
+    (hbx : x.binsize = some b) (hby : y.binsize = some b) (hcs : x.chromsizes = y.chromsizes) :
+    x.names = y.names ∧ x.bins = y.bins := by
+  have hux : ∀ g ∈ groups x.bins, UniformChrom b g :=
+    C20.getBinsize_truthful _ b (wf_valid hx) (by rw [← hbx, hx.2.2.2.1]; rfl)
+  have huy : ∀ g ∈ groups y.bins, UniformChrom b g :=
+    C20.getBinsize_truthful _ b (wf_valid hy) (by rw [← hby, hy.2.2.2.1]; rfl)
+  rw [hx.2.2.2.2, hy.2.2.2.2] at hcs
+  have hAx : (getChromsizes x.bins).map Prod.fst = List.range x.names.length := by
+    rw [chromsizes_ids_sorted _ (wf_sorted hx), wf_ids hx]
+  have hAy : (getChromsizes y.bins).map Prod.fst = List.range y.names.length := by
+    rw [chromsizes_ids_sorted _ (wf_sorted hy), wf_ids hy]
+  obtain ⟨hn, hc⟩ := keyed_map_inj hAx hAy hcs
+  exact ⟨hn, uniform_table_unique b _ _ (wf_sorted hx) (wf_sorted hy) (wf_valid hx) (wf_valid hy) hux huy hc⟩
+
+/-! ## the decision procedure -/
+
+theorem modesAgree_iff (first : Input) (rest : List Input) :
+    modesAgree (first :: rest) = true ↔ ∀ x ∈ rest, x.symm = first.symm := by
+  unfold modesAgree
+  cases hf : first.symm <;> simp [List.all_cons, hf]
+
+/-- the model never answers with anything but acceptance or a ValueError -/
+theorem compat_ok_or_value (l : List Input) : mergeCompat l = .ok () ∨ mergeCompat l = .error .value := by
+  unfold mergeCompat
+  split
+  · exact Or.inr rfl
+  · split
+    · exact Or.inr rfl
+    · split
+      · split
+        · exact Or.inr rfl
+        · split
+          · exact Or.inr rfl
+          · exact Or.inl rfl
+      · split
+        · exact Or.inr rfl
+        · exact Or.inl rfl
+
+/-- what the code's tests amount to -/
+theorem compat_ok_iff (first : Input) (rest : List Input) :
+    mergeCompat (first :: rest) = .ok () ↔
+      (∀ x ∈ rest, x.symm = first.symm) ∧
+      ((∃ b, first.binsize = some b ∧ ∀ x ∈ rest, x.binsize = some b ∧ x.chromsizes = first.chromsizes) ∨
+       (first.binsize = none ∧ ∀ x ∈ rest, x.rows = first.rows)) := by
+  rw [← modesAgree_iff]
+  simp only [mergeCompat]
+  split
+  · rename_i hm
+    simp [hm]
+  · rename_i hm
+    have hm' : modesAgree (first :: rest) = true := by simpa using hm
+    simp only [hm', true_and]
+    split
+    · rename_i b hb
+      split
+      · rename_i h1
+        simp only [reduceCtorEq, false_iff, not_or, not_exists, not_and]
+        refine ⟨?_, fun h => by rw [hb] at h; cases h⟩
+        intro b' hb' hall
+        have : (rest.all fun x => decide (x.binsize = first.binsize)) = true := by
+          simp only [List.all_eq_true, decide_eq_true_eq]
+          intro x hx
+          rw [(hall x hx).1, hb']
+        rw [this] at h1
+        cases h1
+      · rename_i h1
+        simp only [Bool.not_eq_false, List.all_eq_true, decide_eq_true_eq] at h1
+        split
+        · rename_i h2
+          simp only [reduceCtorEq, false_iff, not_or, not_exists, not_and]
+          refine ⟨?_, fun h => by rw [hb] at h; cases h⟩
+          intro b' _ hall
+          have : (rest.all fun x => decide (x.chromsizes = first.chromsizes)) = true := by
+            simp only [List.all_eq_true, decide_eq_true_eq]
+            exact fun x hx => (hall x hx).2
+          rw [this] at h2
+          cases h2
+        · rename_i h2
+          simp only [Bool.not_eq_false, List.all_eq_true, decide_eq_true_eq] at h2
+          simp only [true_iff]
+          exact Or.inl ⟨b, hb, fun x hx => ⟨(h1 x hx).trans hb, h2 x hx⟩⟩
+    · rename_i hb
+      split
+      · rename_i h1
+        simp only [reduceCtorEq, false_iff, not_or, not_exists, not_and]
+        refine ⟨fun b' hb' => (by rw [hb] at hb'; cases hb'), ?_⟩
+        intro _ hall
+        have : (rest.all fun x => decide (x.rows.length = first.rows.length) && decide (x.rows = first.rows)) = true := by
+          simp only [List.all_eq_true, Bool.and_eq_true, decide_eq_true_eq]
+          exact fun x hx => ⟨by rw [hall x hx], hall x hx⟩
+        rw [this] at h1
+        cases h1
+      · rename_i h1
+        simp only [Bool.not_eq_false, List.all_eq_true, Bool.and_eq_true, decide_eq_true_eq] at h1
+        simp only [true_iff]
+        exact Or.inr ⟨hb, fun x hx => (h1 x hx).2⟩
+
+/-! ## the refusal clause -/
+
+/-- **compat_accepts_iff**: on well-formed inputs the code's compatibility test accepts exactly the
+lists whose members all have the first one's storage mode, chromosome names (in order) and bin
+table.  (L1 `mergeCompat` = L0 `allSame`.) -/
+theorem compat_accepts_iff (first : Input) (rest : List Input) (hwf : ∀ x ∈ first :: rest, WF x) :
+    mergeCompat (first :: rest) = .ok () ↔ allSame (first :: rest) := by
+  have hf : WF first := hwf first (by simp)
+  rw [compat_ok_iff]
+  unfold allSame
+  constructor
+  · rintro ⟨hm, hfix | htab⟩ x hx
+    · obtain ⟨b, hb, h⟩ := hfix
+      have := fastpath_sound (hwf x (List.mem_cons_of_mem _ hx)) hf (h x hx).1 hb (h x hx).2
+      exact ⟨hm x hx, this.1, this.2⟩
+    · have := rows_inj (hwf x (List.mem_cons_of_mem _ hx)) hf (htab.2 x hx)
+      exact ⟨hm x hx, this.1, this.2⟩
+  · intro h
+    refine ⟨fun x hx => (h x hx).1, ?_⟩
+    have heads : ∀ x ∈ rest, x.binsize = first.binsize ∧ x.chromsizes = first.chromsizes ∧ x.rows = first.rows := by
+      intro x hx
+      obtain ⟨_, hn, hb⟩ := h x hx
+      have hwx := hwf x (List.mem_cons_of_mem _ hx)
+      refine ⟨?_, ?_, ?_⟩
+      · rw [hwx.2.2.2.1, hf.2.2.2.1, hb]
+      · rw [hwx.2.2.2.2, hf.2.2.2.2, hb, hn]
+      · simp only [Input.rows, hb, hn]
+    cases hb : first.binsize with
+    | none => exact Or.inr ⟨rfl, fun x hx => (heads x hx).2.2⟩
+    | some b => exact Or.inl ⟨b, rfl, fun x hx => ⟨by rw [(heads x hx).1, hb], (heads x hx).2.1⟩⟩
+
+theorem compat_accepts_same (first : Input) (rest : List Input) (hwf : ∀ x ∈ first :: rest, WF x)
+    (h : mergeCompat (first :: rest) = .ok ()) : allSame (first :: rest) :=
+  (compat_accepts_iff first rest hwf).mp h
+
+theorem compat_same_accepts (first : Input) (rest : List Input) (hwf : ∀ x ∈ first :: rest, WF x)
+    (h : allSame (first :: rest)) : mergeCompat (first :: rest) = .ok () :=
+  (compat_accepts_iff first rest hwf).mpr h
+
+/-- **merge_refuses** — the clause as the property words it: if some input differs from the first in
+storage mode, in bin table (or chromosome names), or in resolution (another reported bin size, or
+fixed versus variable), the merge is refused. -/
+theorem merge_refuses (first : Input) (rest : List Input) (hwf : ∀ x ∈ first :: rest, WF x)
+    (hdiff : ∃ x ∈ rest, x.symm ≠ first.symm ∨ x.bins ≠ first.bins ∨ x.names ≠ first.names ∨
+      x.binsize ≠ first.binsize) :
+    mergeCompat (first :: rest) = .error .value := by
+  rcases compat_ok_or_value (first :: rest) with hok | herr
+  · exfalso
+    have hs := compat_accepts_same first rest hwf hok
+    obtain ⟨x, hx, hd⟩ := hdiff
+    obtain ⟨h1, h2, h3⟩ := hs x hx
+    rcases hd with hd | hd | hd | hd
+    · exact hd h1
+    · exact hd h3
+    · exact hd h2
+    · apply hd
+      rw [(hwf x (List.mem_cons_of_mem _ hx)).2.2.2.1, (hwf first (by simp)).2.2.2.1, h3]
+  · exact herr
+
+/-- a merge of nothing is refused as well -/
+theorem merge_refuses_empty : mergeCompat [] = .error .value := rfl
+
+/-! ## the unrepaired `get_binsize` would make the shortcut unsound -/
+
+/-- an input as `create` wrote it BEFORE the repair of `get_binsize` (known finding D1): the stored
+bin size comes from the legacy rule, which does not look at the last bin of a chromosome -/
+def legacyInput (symm : Bool) (names : List Name) (bins : BinTable) : Input :=
+  ⟨symm, names, bins, getBinsizeLegacyG (groups bins), chromsizesOf names bins⟩
+
+def witnessA : BinTable := [⟨0, 0, 10⟩, ⟨0, 10, 25⟩]
+def witnessB : BinTable := [⟨0, 0, 10⟩, ⟨0, 10, 20⟩, ⟨0, 20, 25⟩]
+
+/-- **legacy_fastpath_unsound**: `c0: [0,10) [10,25)` and `c0: [0,10) [10,20) [20,25)` are two different
+valid tables with the same legacy bin size (10) and the same chromosome sizes; with the legacy heads the
+compatibility test ACCEPTS the pair although the inputs are not the same; with the repaired heads it
+refuses. -/
+theorem legacy_fastpath_unsound :
+    validSegmentationB witnessA = true ∧ validSegmentationB witnessB = true ∧ witnessA ≠ witnessB ∧
+    getBinsizeLegacyG (groups witnessA) = some 10 ∧ getBinsizeLegacyG (groups witnessB) = some 10 ∧
+    getChromsizes witnessA = getChromsizes witnessB ∧
+    mergeCompat [legacyInput true [0] witnessA, legacyInput true [0] witnessB] = .ok () ∧
+    ¬ allSame [legacyInput true [0] witnessA, legacyInput true [0] witnessB] ∧
+    mergeCompat [mkInput true [0] witnessA, mkInput true [0] witnessB] = .error .value ∧
+    mergeCompat [mkInput true [0] witnessB, mkInput true [0] witnessA] = .error .value := by
+  decide
+
+/-! ## non-vacuity -/
+
+/-- two chromosomes named 7 and 3 (in this order), fixed width 10 -/
+def exFixed : Input := mkInput true [7, 3] [⟨0, 0, 10⟩, ⟨0, 10, 20⟩, ⟨0, 20, 25⟩, ⟨1, 0, 10⟩, ⟨1, 10, 12⟩]
+/-- the same but for the last bin of the last chromosome -/
+def exFixedLast : Input := mkInput true [7, 3] [⟨0, 0, 10⟩, ⟨0, 10, 20⟩, ⟨0, 20, 25⟩, ⟨1, 0, 10⟩, ⟨1, 10, 13⟩]
+/-- the same lengths under other names / the same names in the other order -/
+def exRenamed : Input := mkInput true [7, 4] exFixed.bins
+def exReordered : Input := mkInput true [3, 7] exFixed.bins
+def exSquare : Input := mkInput false [7, 3] exFixed.bins
+/-- one bin per chromosome: no bin size is reported, the table path decides -/
+def exOneBin : Input := mkInput true [7, 3] [⟨0, 0, 12⟩, ⟨1, 0, 12⟩]
+def exOneBinReordered : Input := mkInput true [3, 7] [⟨0, 0, 12⟩, ⟨1, 0, 12⟩]
+def exVar : Input := mkInput true [7] [⟨0, 0, 4⟩, ⟨0, 4, 7⟩, ⟨0, 7, 12⟩]
+def exVarFixedLen : Input := mkInput true [7] [⟨0, 0, 4⟩, ⟨0, 4, 8⟩, ⟨0, 8, 12⟩]
+
+/-- the hypotheses of `compat_accepts_iff` / `merge_refuses` are met by concrete, non-trivial inputs -/
+example : ∀ x ∈ [exFixed, exFixedLast, exRenamed, exReordered, exSquare, exOneBin, exOneBinReordered,
+    exVar, exVarFixedLen], WF x := by decide
+
+example : exFixed.binsize = some 10 ∧ exOneBin.binsize = none ∧ exVar.binsize = none ∧
+    exVarFixedLen.binsize = some 4 := by decide
+
+/-- accepted: three identical inputs (both paths) -/
+example : mergeCompat [exFixed, exFixed, exFixed] = .ok () ∧ allSame [exFixed, exFixed, exFixed] := by decide
+example : mergeCompat [exOneBin, exOneBin] = .ok () ∧ allSame [exOneBin, exOneBin] := by decide
+example : mergeCompat [exSquare, exSquare] = .ok () := by decide
+
+/-- refused: the differing input first, in the middle, last; every kind of difference -/
+example : mergeCompat [exFixedLast, exFixed, exFixed] = .error .value ∧
+    mergeCompat [exFixed, exFixedLast, exFixed] = .error .value ∧
+    mergeCompat [exFixed, exFixed, exFixedLast] = .error .value ∧
+    mergeCompat [exFixed, exRenamed] = .error .value ∧
+    mergeCompat [exFixed, exReordered] = .error .value ∧
+    mergeCompat [exFixed, exSquare] = .error .value ∧
+    mergeCompat [exSquare, exFixed, exSquare] = .error .value ∧
+    mergeCompat [exOneBin, exOneBinReordered] = .error .value ∧
+    mergeCompat [exVar, exVarFixedLen] = .error .value ∧
+    mergeCompat [exVarFixedLen, exVar] = .error .value := by decide
+
+/-- `merge_refuses` applied to a concrete triple (hypotheses discharged by evaluation) -/
+example : mergeCompat [exFixed, exFixed, exFixedLast] = .error .value :=
+  merge_refuses exFixed [exFixed, exFixedLast] (by decide) ⟨exFixedLast, by decide, Or.inr (Or.inl (by decide))⟩
+
+/-- `uniform_table_unique` is not vacuous: a two-chromosome table meeting its hypotheses -/
+example : chromSortedB exFixed.bins = true ∧ (∀ g ∈ groups exFixed.bins, ValidChrom g) ∧
+    (∀ g ∈ groups exFixed.bins, UniformChrom 10 g) ∧ getChromsizes exFixed.bins = [(0, 25), (1, 12)] := by
+  decide
+
 end Cooler.C07
